@@ -271,7 +271,7 @@ let sortd d = sort_maps bytes_ltb d
 (* expected result of a Wrap: both views of a well-formed value *)
 let oracle_wrap t s g (obs_views : string) : string =
   if not (verify_compat t s) then "ok" else
-  if not (gv_ok repaired t s g) then "ok" else
+  if not (gv_ok repaired narrow32 t s g) then "ok" else
   let want = string_of_dm (denote LType t g) ^ "|" ^ string_of_dm (denote LRepr t g) ^ "|same" in
   if obs_views = want then "ok" else
   if gv_has_big_uint s g then "fail:bind_uint_kind_overflow" else
@@ -282,7 +282,7 @@ let oracle_wrap t s g (obs_views : string) : string =
    because of integer width (other lenient acceptances of ill-formed trees belong to C09/C12) *)
 let oracle_build lv t s d (obs : string) : string =
   if not (verify_compat t s) then "ok" else
-  let fit = fits lv narrow32 t s d in
+  let fit = fits repaired lv narrow32 t s d in
   if starts_with "ok:" obs then begin
     match String.split_on_char '|' (after "ok:" obs) with
     | [gvtext; view] ->
@@ -394,7 +394,7 @@ let () =
       let (_, model, _) = model_wrap_obs (Explicit t) s g registry0 in
       let verdict =
         if starts_with "ok:" obs then oracle_wrap t s g (after "ok:" obs)
-        else if verify_compat t s && gv_ok repaired t s g then "fail:" ^ first_or "wrap_failed" (features t s)
+        else if verify_compat t s && gv_ok repaired narrow32 t s g then "fail:" ^ first_or "wrap_failed" (features t s)
         else "ok" in
       emit id model verdict
     | [id; "build"; _; level; shape; sty; dmtext; obs] ->
@@ -414,7 +414,7 @@ let () =
             | (_, OFail e) -> berr_str e
             | _ -> "?")) in
       let verdict =
-        if not (verify_compat t s) || not (gv_ok repaired t s g) then "ok"
+        if not (verify_compat t s) || not (gv_ok repaired narrow32 t s g) then "ok"
         else oracle_value t s (denote LType t g) obs (Some g) in
       emit id model verdict
     | [id; "hist"; steps; obss] ->
@@ -452,7 +452,7 @@ let () =
                           if starts_with pre rest then after pre rest else "!sty" ^ rest
                         | Explicit _ -> rest) in
                     if starts_with "!sty" rest then "fail:inferred_schema" else oracle_wrap t s g rest
-                  end else if verify_compat t s && gv_ok repaired t s g then "fail:wrap_failed" else "ok") in
+                  end else if verify_compat t s && gv_ok repaired narrow32 t s g then "fail:wrap_failed" else "ok") in
            (model, verdict)
          | "build" ->
            let d = dm_of_string payload in
@@ -483,7 +483,7 @@ let () =
                    | (_, OFail e) -> if obs = berr_str e then "ok" else "fail:history_dependent"
                    | _ -> "fail:history_dependent")
                 | Some t ->
-                  if not (verify_compat t s) || not (gv_ok repaired t s g) then "ok"
+                  if not (verify_compat t s) || not (gv_ok repaired narrow32 t s g) then "ok"
                   else if obs = "ok:" ^ string_of_dm (canon cdc (denote LRepr t g)) then "ok"
                   else if gv_has_big_uint s g then "fail:bind_uint_kind_overflow"
                   else "fail:" ^ first_or "marshal_mismatch" (features t s)) in
@@ -508,7 +508,7 @@ let () =
                    | _ -> "fail:history_dependent")
                 | Some t ->
                   if not (verify_compat t s) then "ok"
-                  else if fits LRepr narrow32 t s d0 then
+                  else if fits repaired LRepr narrow32 t s d0 then
                     (* the value must read back (representation level) as d, map order aside *)
                     (if starts_with "ok:" obs then
                        (match (try Some (gv_of_string (after "ok:" obs)) with _ -> None) with
